@@ -13,7 +13,7 @@ pub const RULE: &str = "valid documents (generated spec or RichSpec; known and u
 4-byte floats, 1-8 byte ids; payloads 0..300 bytes) × EVERY cut position 0..=len (exhaustive per document) × one of {slice source, 1-byte reads, random chunking} × capacity {default, 16, 17, 33, 64, len±1}. \
 Oracle from the reference encoder's layout (not from the reader): non-End items = exactly the elements complete in the prefix; items emitted form a prefix of the uncut document's sequence that stops before the \
 incomplete element; at a tag boundary: Ends of all open masters innermost first, then None; otherwise exactly one UnexpectedEOF with tag_start / tag_id / tag_size / partial_data as the statement fixes them; never a corruption error. \
-Stage big_payload_cuts: a RichSpec document with one Blob of 65-145 KB (1 in 12: 1-3 MiB, cut around header end + 1 MiB too), the same oracle at ~27 sampled cuts (element ends, ±2 around multiples of 64 KiB inside the payload and in the stream, random), slice or chunked source, capacity {default, 16, 64, 4096, 70 000}. Each (document, cut) is one evaluation; non-trivial: cut strictly inside an element; distinct by (document hash, cut).";
+Stage cuts_beyond_4GiB: the synthesized stream of C03 cut inside group 1 030 (beyond 4 GiB) in the payload, in the group's header, between a payload element's id and size, in the stamp's payload and at the group boundary: same expectation from the generator's arithmetic. Stage big_payload_cuts: a RichSpec document with one Blob of 65-145 KB (1 in 12: 1-3 MiB, cut around header end + 1 MiB too), the same oracle at ~27 sampled cuts (element ends, ±2 around multiples of 64 KiB inside the payload and in the stream, random), slice or chunked source, capacity {default, 16, 64, 4096, 70 000}. Each (document, cut) is one evaluation; non-trivial: cut strictly inside an element; distinct by (document hash, cut).";
 
 pub const ASSUMPTIONS: &[&str] = &[
     "Ends between the last complete tag and the incomplete one may or may not be delivered before the error (the statement fixes tags and the error, not those Ends)",
@@ -408,11 +408,100 @@ fn stage_big(i: &Input, c: &mut Case) -> Result<(), String> {
     Ok(())
 }
 
-pub const STAGES: &[Stage] = &[Stage { name: "every_cut", f: stage_doc }, Stage { name: "big_payload_cuts", f: stage_big }];
+/// Cuts far into a stream: the synthesized stream of C03 (groups of a 4-byte stamp and a 4 MiB payload under one unknown-size master) ends
+/// inside group 1 030, i.e. beyond 4 GiB — inside the payload, inside the group's header, between the payload element's id and size, inside
+/// the stamp's payload, or at the group boundary.  Same expectation as everywhere in C12, computed from the generator's arithmetic.
+fn stage_far(i: &Input, c: &mut Case) -> Result<(), String> {
+    use super::c03::{FarSource, FAR_BLOB, FAR_HEAD, FAR_PERIOD};
+    let mode = i.args()[0];
+    let k = 1030u64;
+    let base = FAR_HEAD + k * FAR_PERIOD;
+    // (cut, items of group k that are complete, incomplete tag: (start, id if complete, size if header complete, available payload bytes))
+    let (cut, complete, inc): (u64, usize, Option<(u64, Option<u64>, Option<usize>, usize)>) = match mode {
+        0 => (base + 19 + (1 << 20) + 7, 2, Some((base + 14, Some(0xa3), Some(FAR_BLOB as usize), (1 << 20) + 7))),
+        1 => (base + 2, 0, Some((base, None, None, 0))),
+        2 => (base + 16, 2, Some((base + 14, Some(0xa3), None, 0))),
+        3 => (base + 12, 1, Some((base + 8, Some(0xe7), Some(4), 2))),
+        _ => (base, 0, None),
+    };
+    let src = FarSource { pos: 0, total: cut, max_read: usize::MAX };
+    let mut rd = Rd::<crate::dynspec::RichSpec, FarSource>::new(src, &ReadCfg::default())?;
+    let mut next_item = |what: String| -> Result<(Flat, usize), String> {
+        match rd.next() {
+            Step::Item(f, o) => Ok((f, o)),
+            Step::Err(e) => Err(format!("{}: error {} although the element is complete", what, e.short())),
+            Step::Done => Err(format!("{}: iteration ended", what)),
+            Step::Panic(p) => Err(format!("{}: panic {}", what, p)),
+        }
+    };
+    let want = |what: String, got: (Flat, usize), f: Flat, off: u64| -> Result<(), String> {
+        if got.1 as u64 != off || got.0 != f {
+            return Err(format!("{}: got {:?} at offset {}, the stream has {:?} at offset {}", what, got.0, got.1, f, off));
+        }
+        Ok(())
+    };
+    want("first item".into(), next_item("first item".into())?, Flat::Start(0x18538067), 0)?;
+    for j in 0..=k {
+        let b = FAR_HEAD + j * FAR_PERIOD;
+        let n = if j < k { 4 } else { complete };
+        for part in 0..n {
+            let got = next_item(format!("group {} item {}", j, part))?;
+            match part {
+                0 => want(format!("group {}", j), got, Flat::Start(0x1f43b675), b)?,
+                1 => want(format!("stamp of group {}", j), got, Flat::Leaf(0xe7, Payload::U(j)), b + 8)?,
+                2 => {
+                    let ok = matches!(&got.0, Flat::Leaf(0xa3, Payload::B(d)) if d.len() as u64 == FAR_BLOB) && got.1 as u64 == b + 14;
+                    if !ok {
+                        return Err(format!("blob of group {}: got {:?} at offset {}, expected 4 MiB at {}", j, got.0, got.1, b + 14));
+                    }
+                }
+                _ => want(format!("end of group {}", j), got, Flat::End(0x1f43b675), b)?,
+            }
+            c.checks += 1;
+        }
+    }
+    // what follows the complete tags
+    let mut ends = Vec::new();
+    let last = loop {
+        match rd.next() {
+            Step::Item(Flat::End(id), _) => ends.push(id),
+            other => break other,
+        }
+    };
+    match (inc, last) {
+        (None, Step::Done) => {
+            if ends != vec![0x18538067] {
+                return Err(format!("cut {} is a tag boundary: closing Ends {:x?}, expected [18538067]", cut, ends));
+            }
+        }
+        (None, other) => return Err(format!("cut {} is a tag boundary, but the iterator returned {}", cut, match other { Step::Item(f, o) => format!("{:?}@{}", f, o), Step::Err(e) => e.short(), Step::Panic(p) => p, Step::Done => unreachable!() })),
+        (Some((start, id, size, avail)), Step::Err(ErrK::Eof { tag_start, tag_id, tag_size, partial })) => {
+            let pl = partial.as_ref().map(|d| d.len()).unwrap_or(0);
+            let zero = partial.as_ref().map(|d| d.iter().all(|x| *x == 0)).unwrap_or(true);
+            if tag_start as u64 != start || tag_id != id || tag_size != size || pl != avail || !zero {
+                return Err(format!(
+                    "cut {}: UnexpectedEOF {{ tag_start: {}, tag_id: {:x?}, tag_size: {:?}, partial_data: {} bytes{} }}, the incomplete tag is {{ start {}, id {:x?}, size {:?}, {} payload bytes available }}",
+                    cut, tag_start, tag_id, tag_size, pl, if zero { "" } else { " (not the stream's)" }, start, id, size, avail
+                ));
+            }
+        }
+        (Some(_), other) => {
+            return Err(format!("cut {} inside an element of a valid stream: expected UnexpectedEOF, got {}", cut, match other { Step::Item(f, o) => format!("{:?}@{}", f, o), Step::Err(e) => e.short(), Step::Panic(p) => p, Step::Done => "None".into() }))
+        }
+    }
+    c.units = 1;
+    c.nontrivial_units = 1;
+    c.label("cut_beyond_4GiB");
+    c.sample_with(|| format!("synthesized stream cut at {} (group {} starts at {})", cut, k, base));
+    Ok(())
+}
+
+pub const STAGES: &[Stage] = &[Stage { name: "every_cut", f: stage_doc }, Stage { name: "big_payload_cuts", f: stage_big }, Stage { name: "cuts_beyond_4GiB", f: stage_far }];
 
 pub fn run(rc: &mut RunCtx) {
     rc.run_pt(STAGES[0], rc.pick(32_000, 200_000), (96, 400));
     rc.run_pt(STAGES[1], rc.pick(1_500, 12_000), (32, 64));
+    rc.run_indexed(STAGES[2], 5, true, &|i| Input::Args(vec![i]));
     rc.require_label("big_payload_cuts", "cut_beyond_64k_of_available_payload", 3_000);
     rc.require_label("every_cut", "unknown_size", 50_000);
     rc.require_label("every_cut", "source_1byte_reads", 100_000);
